@@ -1,6 +1,9 @@
 package gen
 
 import (
+	"fmt"
+	"math"
+
 	"verif/harness/spec"
 )
 
@@ -55,5 +58,34 @@ func C14(seed uint64, run int) *spec.Spec {
 		st.Quiet = r.Chance(0.3)
 		s.History = append(s.History, st)
 	}
+	// volume fault, drawn from a stream of its own so that every other history stays what it was: a run of by-day
+	// queries over 200..70000 distinct days (log-uniform) placed before one of the fix-ups - the only way a per-day
+	// memo, index or cache generation in front of the table is pushed past its capacity inside one bounded history
+	r2 := NewRng(seed, 1014, run)
+	if len(s.History) > 0 && r2.Chance(0.10) {
+		k := r2.Range(1, 2)
+		for j := 0; j < k; j++ {
+			fl := &spec.DayFlood{Count: logUniform(r2, 200, 70000), Stride: 1}
+			if r2.Chance(0.2) {
+				fl.Stride = r2.Range(2, 7)
+			}
+			span := fl.Count * fl.Stride / 365
+			y := 2000 - span/2 + r2.Range(-5, 25)
+			if y < 1000 {
+				y = 1000
+			}
+			fl.From = fmtYmd(y, r2.Range(1, 12), r2.Range(1, 28))
+			pos := r2.Intn(len(s.History))
+			st := spec.HStep{Flood: fl, Why: "flood"}
+			s.History = append(s.History[:pos:pos], append([]spec.HStep{st}, s.History[pos:]...)...)
+		}
+	}
 	return s
 }
+
+// logUniform returns a value in [lo, hi] whose logarithm is uniform.
+func logUniform(r *Rng, lo, hi int) int {
+	return int(float64(lo) * math.Pow(float64(hi)/float64(lo), r.Float()))
+}
+
+func fmtYmd(y, m, d int) string { return fmt.Sprintf("%04d-%02d-%02d", y, m, d) }
